@@ -153,6 +153,12 @@ def run(ctx: Ctx):
                     "new_fields.append(Field(field.name, new_domain))"])
     ok = sol is not None and all(any(n is x for x in ast.walk(sol[1][0])) for n in sol[1][1:])
     ctx.check(ok, "LIST-1", ui, ui.node, "inner list selectors restrict their field in the given order", "", "inner list selection changed")
+    # (written after seed C12-c) inside the list-selector branch nothing returns the unchanged index: a list always states an order
+    sel_p = ui.positional_params[1]
+    for br in [n for n in ast.walk(ui.node) if isinstance(n, ast.If) and Snips(ui).m(f"isinstance({sel_p}, list)", n.test) is not None]:
+        bad = [r_ for b_ in br.body for r_ in ast.walk(b_) if isinstance(r_, ast.Return) and isinstance(r_.value, ast.Name) and r_.value.id == ui.self_name]
+        ctx.check(not bad, "LIST-1", ui, bad[0] if bad else br, "a list selector never yields the unchanged index", "",
+                  "a path of the list-selector branch returns `self`: a list naming the keys in another order (or with repeats) is ignored")
     idd = TI.methods["_index_into_domain"]
     fsp, domp = idd.positional_params[1:3]
     ok = Snips(idd).has(f"type({fsp})([{domp}.index(e) for e in {fsp}])")
@@ -210,6 +216,6 @@ def run(ctx: Ctx):
     ctx.check(ok, "VAL-1", vt, vt.node, "validation rejects duplicate coordinates and shape mismatches", "", "validation no longer compares data shape, coordinate counts and unique counts")
     init = T.methods["__init__"]
     ctx.check("self._validate_table()" in ast.unparse(init.node), "VAL-1", init, init.node, "tables are validated on construction", "", "validation is not run on construction")
-    for rr, k in (("ORD-1", 2), ("NOOP-1", 7), ("KEY-1", 3), ("ROW-1", 1), ("POL-1", 1), ("LIST-1", 4), ("IFC-3", 10), ("VAL-1", 2)):
+    for rr, k in (("ORD-1", 2), ("NOOP-1", 7), ("KEY-1", 3), ("ROW-1", 1), ("POL-1", 1), ("LIST-1", 5), ("IFC-3", 10), ("VAL-1", 2)):
         ctx.require(rr, k)
     ctx.assume("keys of different fields do not collide with domain elements of the outermost field in ways that change resolution (runtime values)")
